@@ -291,6 +291,91 @@ pub fn drive_histories(t: &Tier, sink: &mut Sink, profile: Profile, cf: &'static
     }
 }
 
+/// Histories for the function-contract properties: the subject is taken through random public calls of
+/// every sort ("setup" steps: executed and recorded, not judged by this check - the model re-synchronises
+/// on what was observed), and between them the operations the property is about are called on the live,
+/// history-made object and judged against the specification (cf "fun"), or its hash stream is recorded
+/// (cf "hash").  A change whose effect stays invisible until a *different* operation reads the storage
+/// (two cooperating sites) is seen here by the check of the property that owns the reading operation.
+pub fn drive_focus_histories(t: &Tier, sink: &mut Sink, ops: &[&str], kinds: &[Kind], histories: usize, steps: usize, stats: &mut Stats) {
+    let mut rng = Rng::new(t.seed ^ 0xF0C5 ^ ((ops.len() as u64) << 12) ^ (ops[0].len() as u64));
+    for h in 0..histories {
+        let kind = kinds[h % kinds.len()];
+        let cap = kind.fixed_cap().unwrap_or(300);
+        let n0 = random_len(&mut rng, cap.min(140));
+        let start = random_bits(&mut rng, n0);
+        let preps = [Prep::Fresh, Prep::Spare, Prep::Heap, Prep::Pushed, Prep::Shrunk];
+        let (mut x, _) = make(kind, &start, *rng.pick(&preps));
+        let mut evs = Vec::new();
+        let mut nb = 1u8;
+        for _ in 0..steps {
+            let cur = x.bits();
+            // one setup step ...
+            let st = gen_step(&mut rng, kind, &cur, Profile::All);
+            let pre = observe(&x);
+            let (o, py, yd, results) = run_step(&mut x, &st);
+            let post = observe(&x);
+            evs.push(base_event(&st, nb, "setup", t.dbg, &x, &pre, yd, &post, py, &o));
+            stats.execs += 1;
+            nb = 0;
+            if post.bits.is_none() || o == Out::Panic {
+                break;
+            }
+            if maybe_adopt(&mut rng, &mut x, results) {
+                nb = 1;
+            }
+            // ... then one to three of the property's own operations on the live object
+            let cur = x.bits();
+            let mut cands: Vec<Step> = battery(&mut rng, kind, &cur, t.dbg).into_iter().filter(|s| ops.contains(&s.op)).collect();
+            // ... with random arguments as well (the battery's are fixed)
+            for _ in 0..24 {
+                let s = gen_step(&mut rng, kind, &cur, Profile::All);
+                if ops.contains(&s.op) {
+                    cands.push(s);
+                }
+            }
+            if cands.is_empty() {
+                continue;
+            }
+            let mut dead = false;
+            for _ in 0..1 + rng.below(3) {
+                let st = rng.pick(&cands).clone();
+                let pre = observe(&x);
+                if st.op == "hash" || st.op == "hash_slice" {
+                    let mut xc = x.clone();
+                    let stream = match exec(&mut xc, &Y::None, st.op, "", &Args::default()) {
+                        Out::Bytes(s) => s,
+                        _ => vec![0xEE],
+                    };
+                    let id = intern_stream(stream);
+                    let mut ev = base_event(&st, nb, "hash", t.dbg, &x, &pre, ydesc_none(), &observe(&xc), vec![], &Out::Unit);
+                    ev["h"] = json!(id);
+                    evs.push(ev);
+                    stats.execs += 1;
+                    nb = 0;
+                    continue;
+                }
+                let (o, py, yd, results) = run_step(&mut x, &st);
+                let post = observe(&x);
+                let mut ev = base_event(&st, nb, "fun", t.dbg, &x, &pre, yd, &post, py, &o);
+                ev["pr"] = json!(probes(&x, &o, &results));
+                evs.push(ev);
+                stats.execs += 1;
+                nb = 0;
+                if post.bits.is_none() || o == Out::Panic {
+                    dead = true;
+                    break;
+                }
+            }
+            if dead {
+                break;
+            }
+        }
+        stats.histories += 1;
+        sink.emit(evs);
+    }
+}
+
 /// C18, deterministic part: reserve / shrink_to_fit / with_capacity at lengths on and next to every
 /// 64-bit boundary and the inline limit, with one word, less than a word and several words to spare.
 pub fn drive_c18_targeted(t: &Tier, sink: &mut Sink, stats: &mut Stats) {
@@ -355,6 +440,16 @@ pub fn drive_c18_targeted(t: &Tier, sink: &mut Sink, stats: &mut Stats) {
             }
         }
     }
+}
+
+/// Hash streams are recorded as small numbers: one table per process, so that the same stream has the
+/// same number in every driver of a run (the trace compares numbers across the whole trace).
+pub fn intern_stream(stream: Vec<u8>) -> u64 {
+    use std::sync::{Mutex, OnceLock};
+    static IDS: OnceLock<Mutex<HashMap<Vec<u8>, u64>>> = OnceLock::new();
+    let mut m = IDS.get_or_init(|| Mutex::new(HashMap::new())).lock().unwrap();
+    let next = m.len() as u64 + 1;
+    *m.entry(stream).or_insert(next)
 }
 
 #[derive(Default)]
@@ -577,7 +672,6 @@ pub fn drive_c03(t: &Tier, sink: &mut Sink, stats: &mut Stats) {
 
 pub fn drive_c10(t: &Tier, sink: &mut Sink, stats: &mut Stats) {
     let mut rng = Rng::new(t.seed ^ 0xC10);
-    let mut ids: HashMap<Vec<u8>, u64> = HashMap::new();
     let mut values: Vec<Bits> = Vec::new();
     for n in 0..t.q(5, 7) {
         values.extend(all_of_len(n).filter(|v| v.last() != Some(&0)));
@@ -630,8 +724,7 @@ pub fn drive_c10(t: &Tier, sink: &mut Sink, stats: &mut Stats) {
                             Out::Bytes(s) => s,
                             _ => vec![0xEE],
                         };
-                        let next = ids.len() as u64 + 1;
-                        let id = *ids.entry(stream).or_insert(next);
+                        let id = intern_stream(stream);
                         let post = observe(&xc);
                         let st = Step::new(hop);
                         let mut ev = base_event(&st, 1, "hash", t.dbg, &x, &pre, ydesc_none(), &post, vec![], &Out::Unit);
